@@ -346,6 +346,17 @@ def run_families(payload):
                 cases += 1
                 a, b, _ = check_segment(np, gcd, gp, (rad(lat), rad(lo0)), (rad(lat), rad(lo1)))
                 note(f'pole segment ({lat}, {lo0}) -> ({lat}, {lo1}) deg', a, b)
+            # a leg that ends on the pole exactly on a longitude grid line, coming from the east / from the west: the crossing of
+            # that last line coincides with the pole point (computed from the map line it may land a few ulp beyond 90 degrees)
+            for end_lon in (150.0, 30.0, -60.0, 0.0, -150.0):
+                for dlon, la0 in ((11.36, 68.47), (-11.36, 68.47), (47.3, 21.7), (-33.9, 80.2), (3.7, 89.1)):
+                    if not -180.0 < end_lon + dlon < 180.0:
+                        continue            # (a longitude outside the grid is not a valid way point)
+                    cases += 1
+                    p0, p1 = (rad(la0), rad(end_lon + dlon)), (rad(lat), rad(end_lon))
+                    for u, v in ((p0, p1), (p1, p0)):
+                        a, b, _ = check_segment(np, gcd, gp, u, v)
+                        note('segment between ' + fmt(p0) + ' and the pole on a longitude grid line, ' + ('towards' if u is p0 else 'from') + ' the pole', a, b)
             for lo0, la1, lo1 in ((10.0, 60.0, 10.0), (10.0, 45.0, 70.0), (-100.0, 80.0, -100.0)):
                 cases += 1
                 p0, p1 = (rad(lat), rad(lo0)), (rad(la1 if lat > 0 else -la1), rad(lo1))
